@@ -323,6 +323,7 @@ type execution struct {
 	msgPub    map[string]int
 	steps     int
 	truncated bool
+	optCounts []int // deviation mode: number of options at each step
 }
 
 type action struct {
@@ -549,7 +550,14 @@ func runScenarioMode(t *testing.T, sc Scenario, freeRun bool) (ex execution) {
 				break
 			}
 			k := 0
-			if step < len(sc.Picks) {
+			if sc.DevMode {
+				for _, d := range sc.Dev {
+					if d.S == step {
+						k = d.C % opts
+					}
+				}
+				ex.optCounts = append(ex.optCounts, opts)
+			} else if step < len(sc.Picks) {
 				k = sc.Picks[step] % opts
 			}
 			if k < np {
